@@ -1360,6 +1360,10 @@ def generate_loopy(result: Array | AbstractResultWithNamedArrays | dict[str, Arr
         {name: stripped_outputs[output]
          for name, output in outputs._data.items()},
         tags=outputs.tags)
+    # (Removing the tag can make an output equal to another, formerly distinct,
+    # node of the graph: keep the graph free of duplicates.)
+    from pytato.transform import deduplicate
+    outputs = deduplicate(outputs)
 
     compute_order = preproc_result.compute_order
 
